@@ -1,6 +1,6 @@
 (* C11 — property theorems (statements only; proofs live in Proofs.v; vocabulary in Spec.v / Model.v). *)
 From Coq Require Import List NArith Bool.
-Require Import QV.C11.Model QV.C11.Spec QV.C11.Proofs QV.C11.Proofs_load QV.C11.Proofs_kill QV.C11.Guard QV.C11.Proofs_guard QV.C11.Proofs_exact.
+Require Import QV.C11.Model QV.C11.Spec QV.C11.Proofs QV.C11.Proofs_load QV.C11.Proofs_kill QV.C11.Guard QV.C11.Proofs_guard QV.C11.Proofs_exact QV.C11.Proofs_tight.
 Import ListNotations.
 Open Scope N_scope.
 
@@ -215,3 +215,68 @@ Theorem C11_store_passes_cycle_guard : forall v b d c n steps c',
   wf d c -> plan_of v b d c (OStore n) = PSteps steps c' -> guard_C11_cycle d c (OStore n) = true.
 Proof. exact store_passes_cycle_guard. Qed.
 Print Assumptions C11_store_passes_cycle_guard.
+
+(* ROUND 4: THE EXACT GUARD.  guard_C11_exact (Guard.v, executable on the inputs of the operation): the storage is
+   completely loadable after every prefix of the buffer the encoder builds.  For every atomic variant of the code, every
+   storage only modified through PulseStorage in which everything loads, every cache, every operation (deletion: of
+   entries nothing refers to) and BOTH kinds of interruption at every position:
+     - clauses (b) old-or-new and (c) nothing-before-the-first-publishing-step hold WITHOUT ANY GUARD (in particular
+       outside guard_C11_dup_id and guard_C11_cycle);
+     - clause (a) "the archive exists and every listed identifier loads" holds at every interruption point
+       IF AND ONLY IF the operation passes guard_C11_exact.
+   So the guard excludes exactly the inputs on which the unchanged code violates the property. *)
+Theorem C11_crash_safe_exact : forall v b d c o,
+  safe v b = true -> wf d c -> all_load (view d) -> del_in_scope d o ->
+  let steps := steps_of (plan_of v b d c o) in
+  (forall ck k, let d' := after_crash ck b steps k d in
+     (forall i, lookup i (view d') = lookup i (view d) \/ lookup i (view d') = lookup i (view (run steps d))) /\
+     (no_publish (firstn k steps) = true -> main d' = main d)) /\
+  (guard_C11_exact d c o = true <->
+   forall ck k, let d' := after_crash ck b steps k d in main d' <> None /\ all_load (view d')).
+Proof. exact crash_safe_exact_kinds. Qed.
+Print Assumptions C11_crash_safe_exact.
+
+(* the buffer guard of round 3 (hence the two guards of round 2) implies the exact guard ... *)
+Theorem C11_exact_guard_weaker : forall v b d c o,
+  safe v b = true -> wf d c -> all_load (view d) -> del_in_scope d o ->
+  guard_C11_tx d c o = true -> guard_C11_exact d c o = true.
+Proof. exact tx_guard_implies_exact. Qed.
+Print Assumptions C11_exact_guard_weaker.
+
+(* ... strictly: a template (two objects named 7; the first one and its child 5, which refers to the cached object of
+   the root, are replaced in the buffer; 5 stays as an orphan) outside guard_C11_tx on which nothing goes wrong, with at
+   least three primitive steps on every backend *)
+Theorem C11_exact_guard_strictly_weaker :
+  wf (disk_of orphan_store) orphan_cache /\ all_load (view (disk_of orphan_store)) /\
+  guard_C11_tx (disk_of orphan_store) orphan_cache (OOverwrite orphan_tmpl) = false /\
+  guard_C11_exact (disk_of orphan_store) orphan_cache (OOverwrite orphan_tmpl) = true /\
+  forall b, (3 <= length (steps_of (plan_of current b (disk_of orphan_store) orphan_cache (OOverwrite orphan_tmpl))))%nat.
+Proof. exact exact_guard_strictly_weaker. Qed.
+Print Assumptions C11_exact_guard_strictly_weaker.
+
+(* the exact guard rejects the witnesses of the two known findings (C11_cycle_refuted, C11_dup_id_refuted) *)
+Theorem C11_exact_guard_rejects_findings :
+  guard_C11_exact (disk_of cycle_store) cycle_cache cycle_op = false /\
+  guard_C11_exact (disk_of []) [] (OOverwrite dup_witness) = false.
+Proof. split; [exact exact_guard_rejects_findings|exact exact_guard_rejects_dup_witness]. Qed.
+Print Assumptions C11_exact_guard_rejects_findings.
+
+(* histories of completed / raised / killed operations under the exact guard; the hypothesis of C11_history_safe_tx
+   implies this one; a history over the orphan template that the round-3 hypothesis rejects *)
+Theorem C11_history_safe_exact : forall v b l d c,
+  safe v b = true -> wf d c -> all_load (view d) -> history_ok_exact v b d c l ->
+  wf (fst (run_events v b d c l)) (snd (run_events v b d c l)) /\ all_load (view (fst (run_events v b d c l))).
+Proof. exact history_safe_exact. Qed.
+Print Assumptions C11_history_safe_exact.
+
+Theorem C11_history_exact_weaker : forall v b l d c,
+  safe v b = true -> wf d c -> all_load (view d) -> history_ok_tx v b d c l -> history_ok_exact v b d c l.
+Proof. exact history_ok_tx_exact. Qed.
+Print Assumptions C11_history_exact_weaker.
+
+Theorem C11_history_exact_nonvacuous :
+  forall b, history_ok_exact current b (disk_of orphan_store) orphan_cache orphan_history /\
+            ~ history_ok_tx current b (disk_of orphan_store) orphan_cache orphan_history /\
+            (3 <= length (view (fst (run_events current b (disk_of orphan_store) orphan_cache orphan_history))))%nat.
+Proof. exact orphan_history_nonvacuous. Qed.
+Print Assumptions C11_history_exact_nonvacuous.
